@@ -11,8 +11,9 @@
    dI = -gamma I the solution I0 exp(-gamma t) is the classical scalar one);
    the tau=0 / gamma=0 clauses about the CURVES of the 2-D and node-level
    systems (their right-hand-side identities are proved in the second part
-   of this file over the hand-written models of Model/Rhs2D.v, tied to the
-   code by point evaluation), and tree exactness beyond the single edge. *)
+   of this file over the hand-written models of Model/Rhs2D.v, which the last
+   part (theorems C08_generated_...) proves equal to the definitions regenerated from the
+   source on every run, Gen/Rhs2.v), and tree exactness beyond the single edge. *)
 From EoNV Require Import Prelude Graph Vec VecP Aux Rhs RhsP Rhs2D Rhs2DP Rhs2 Rhs2GenP.
 
 (* ---------------- tau = 0 ---------------- *)
@@ -219,8 +220,8 @@ Print Assumptions C08_nonvacuous_ebcm_discrete.
 
 
 (* ====================================================================== *)
-(* 2-D and node-level systems (Model/Rhs2D.v, hand-written, tied to the    *)
-(* code by point evaluation on every run; proofs in Proofs/Rhs2DP.v)       *)
+(* 2-D and node-level systems (Model/Rhs2D.v, hand-written; = Gen/Rhs2.v   *)
+(* by the C08_generated_.. theorems below; proofs in Proofs/Rhs2DP.v)      *)
 (* ====================================================================== *)
 (* ---------------- tau = 0 ---------------- *)
 (* node level: "tau = 0" is trans_rate_fxn == 0; componentwise dX_i = 0, dY_i = - gamma_i Y_i *)
